@@ -1,12 +1,13 @@
 SPECIFICATION Spec
 CONSTANTS N = 3
  MaxExtraOut = 1
- VarChoices = {0, 1}
+ VarChoices = {0, 1, 2}
  PreStart = "earlier"
  Shorten = "notlast"
  CascadeTime = "shared"
  OutputsAt = "end"
  Protect = "fixed"
+ VarsAt = "whole"
 INVARIANT CoversUse
 INVARIANT FuseSafe
 CHECK_DEADLOCK FALSE
